@@ -100,9 +100,22 @@ check('C14', 'other',
       'asjson on 111k object graphs with sharing and cycles against an independent reference conversion.',
       'Bounds per run in the evidence. D18 (fromjson sniffs strings starting with f{ or \\e[ into Style) is a known finding.',
       'bounded round-trip checking of the real functions (labelled bounded)', '3/C14')
-check('C20', 'other',
-      'Bounded stand-in: all texts up to length 3 over a 14-character alphabet (braces, colon, wide, combining, backslash, newline) x 515 styles x format specs x 9 colour modes (3.7M evaluations): '
-      'de-escaped output equals the plainly formatted text, visible length, no ESC with colour off, repr round trip. The proof of the escape assembly is planned (DESIGN 3/C20); '
-      'the regex stripping lemma is undecidable for z3 and cvc5 (measured) and stays bounded.',
-      'Bounds per run in the evidence.',
-      'bounded exhaustive contract checking of the real functions (labelled bounded)', '3/C20')
+check('C20', 'proof',
+      'Proved for all texts, styles and format specs: Style.apply_style returns the text itself when colour is off (and not forced) or no attribute is set, else ESC[ codes m text ESC[0m '
+      'with the SGR codes assembled exactly from the attributes in the documented order (16 / 256 / RGB branches); apply formats the TEXT with the spec and styles the result once; '
+      '__format__ (the first clause of the property) and __str__ are those functions of the stored value. Bounded: de-escaping (the regex lemma is undecidable for z3/cvc5: measured), '
+      'visible length, repr round trip, markup over 3.7M evaluations.',
+      'Trusted: pyvc, z3, format() and str.join as uninterpreted functions; Color.enabled is an input of the contract.',
+      'contract-based deductive verification (pyvc) + bounded exhaustive runs', '3/C20')
+check('C15', 'translation_validation',
+      'Finite-complete structural correspondence of the three shipped artefacts (the model compiled from _tatsu.ebnf vs GRAMMAR_MODEL rule by rule; regenerated parser and model source vs '
+      'bootstrap.py / bootparser.py as python ASTs) plus bounded behavioural agreement of four parsers over a corpus of grammar texts and single-edit mutants (accept/reject, exception category, equal models). '
+      'Equivalence for EVERY grammar text then rests on C01/C02 (same model, same engine): recorded as a dependency, not proved here.',
+      'Corpus bound in the evidence (quick 3000 texts). Not a proof of the generator.',
+      'translation validation of the shipped artefacts (finite-complete) + bounded differential runs', '3/C15')
+check('C16', 'proof',
+      'Proved: every _nullable override equals the documented nullability clause of its node kind, _is_nullable_safe equals the recursive specification (calls are never looked through). '
+      'Bounded: SCC / cycle enumeration and the LEADERS obligation on ALL digraphs with <= 4 vertices (quick: <= 3 fully + 8k sampled), rule graphs with <= 3 rules x input battery: GrammarError iff the independent '
+      'analysis finds a cycle, no RecursionError with left recursion on.',
+      'Trusted: pyvc, z3 (recursive definitions prove but do not refute: mutants there are reported by the bounded runs). Hidden left recursion through a call to a nullable rule is a known finding.',
+      'contract-based deductive verification (pyvc, recursive spec functions) + bounded exhaustive graph enumeration', '3/C16')
